@@ -7,6 +7,7 @@ from .. import paths, waiters
 from ..core import FUNC, call_attr, calls_in, const, dotted, is_const, kwarg, norm, text, walk_local
 
 EXPLANATION = [
+    "C13.declared-only-reads: Session.get_long_term_key (callable at any time of a session's life) reads none of the attributes Session only declares and assigns later (ltk, ea, eb, ...) directly.",
     'C13.distribution-order: every distribute_keys() call of smp.Session is guarded by the pairing role (self.is_responder / self.is_initiator), never by the link-layer role.',
     'C13.store-condition: Manager.on_pairing stores the keys under no other condition than the presence of a key store and of an identity address.',
     'C13.stk-identifiers: the initial values of Session.ltk_rand / ltk_ediv equal the Rand / EDIV that start_encryption sends with the STK, and get_long_term_key compares the request with exactly those attributes.',
@@ -892,7 +893,32 @@ def distribution_order(ctx):
     R.check(n >= 3, rule, f'{S} | distribute_keys calls', f'{n}', f'only {n} found')
 
 
+def declared_only_reads(ctx):
+    """Session declares some attributes without a value (`ltk: bytes`) and assigns them when the pairing gets there.  The
+    methods the rest of the stack may call at any time of a session's life (the controller's LTK request can arrive for a
+    session that a single stray PDU created) do not read such an attribute directly."""
+    R, p = ctx.r, ctx.p
+    rule = 'C13.declared-only-reads'
+    ci = p.cls(S)
+    if ci is None:
+        R.bad(rule, S, 'anchor missing')
+        return
+    init = ci.methods.get('__init__')
+    in_init = {n_.attr for n_ in ast.walk(init) if isinstance(n_, ast.Attribute) and isinstance(n_.ctx, ast.Store) and isinstance(n_.value, ast.Name) and n_.value.id == 'self'} if init is not None else set()
+    declared_only = {a for a in ci.annots if a not in ci.assigns and a not in in_init}
+    R.check('ltk' in declared_only or 'ltk' in in_init or 'ltk' in ci.assigns, rule, f'{S} | ltk', 'ltk is declared', 'Session no longer declares ltk (anchor)', p.loc(ci.node))
+    ANYTIME = ('get_long_term_key',)
+    for name in ANYTIME:
+        fn = ci.methods.get(name)
+        if fn is None:
+            R.bad(rule, f'{S}.{name}', 'anchor missing')
+            continue
+        reads = [n_ for n_ in walk_local(fn) if isinstance(n_, ast.Attribute) and isinstance(n_.ctx, ast.Load) and isinstance(n_.value, ast.Name) and n_.value.id == 'self' and n_.attr in declared_only]
+        R.check(not reads, rule, f'{S}.{name}', f'reads none of the declared-only attributes {sorted(declared_only)} directly', f'{name} reads `self.{reads[0].attr if reads else ""}`, which exists only once the pairing has computed it: for a session created by any earlier SMP PDU the call raises AttributeError, Device.get_long_term_key never reaches the key store and the bonded link cannot be re-encrypted', p.loc(reads[0]) if reads else p.loc(fn))
+
+
 RULES = [
+    ('C13.declared-only-reads', declared_only_reads),
     ('C13.distribution-order', distribution_order),
     ('C13.store-condition', store_condition),
     ('C13.stk-identifiers', stk_identifiers),
